@@ -83,12 +83,16 @@ class Scheduler:
         def randbits(k): sch.point("randbits"); return sch.cand[sch.tl.pid]
         self.saved = {k: getattr(S, k, None) for k in ("os", "open", "secrets", "tempfile", "user_config_dir", "sys")}
         S.sys = types.SimpleNamespace(stderr=io.StringIO(), float_info=sys.float_info)
-        S.os = types.SimpleNamespace(path=types.SimpleNamespace(isfile=isfile, join=os.path.join), makedirs=makedirs, fdopen=lambda fd, mode: TempFile(fd),
-                                     fsync=fsync, link=link, unlink=unlink, replace=os.replace, rename=os.rename, remove=os.remove, close=os.close, write=os.write,
-                                     open=os.open, O_CREAT=os.O_CREAT, O_EXCL=os.O_EXCL, O_WRONLY=os.O_WRONLY)
+        class Proxy:
+            """the real module with some attributes interposed; everything else is forwarded unchanged"""
+            def __init__(s, real, **over): s.__dict__["_real"] = real; s.__dict__.update(over)
+            def __getattr__(s, name): return getattr(s.__dict__["_real"], name)
+        S.os = Proxy(os, path=Proxy(os.path, isfile=isfile), makedirs=makedirs, fdopen=lambda fd, mode="r", *a, **k: TempFile(fd),
+                     fsync=fsync, link=link, unlink=unlink)
         S.open = my_open
-        S.secrets = types.SimpleNamespace(randbits=randbits)
-        S.tempfile = types.SimpleNamespace(mkstemp=mkstemp)
+        import secrets as _secrets
+        S.secrets = Proxy(_secrets, randbits=randbits)
+        S.tempfile = Proxy(tempfile, mkstemp=mkstemp)
         S.user_config_dir = lambda *a, **k: self.cfg
 
     def uninstall(self):
@@ -180,9 +184,11 @@ def stream_salt(ctx, built, count, name="S-salt"):
     lines, exps, cases = [], [], []
     scheds = gen_schedules(R, 2, count)
     for si, ev in enumerate(scheds):
-        n = 2 if si % 5 else 3
-        if n == 3:
-            ev = ev + [("s", 2)] * 14 if R.random() < 0.5 else [(k, R.randrange(3)) for k, _ in ev]
+        n = 3
+        if si % 5 == 0 and R.random() < 0.5:
+            ev = [(k, R.randrange(3)) for k, _ in ev]                 # three processes interleaved
+        else:
+            ev = ev + [("s", 2)] * 14                                  # two processes, then a later run on the same directory
         pre = R.choice([None, None, None, "valid", "short", "empty"])
         cfg = tempfile.mkdtemp(prefix="sdxsalt"); cdir = os.path.join(cfg, "c")
         cands = [R.getrandbits(64) | (1 << 63) for _ in range(n)]
